@@ -293,7 +293,9 @@ func runC16(t *testing.T, c explore.Case) (res explore.Result, enabled []string)
 			}
 			k := d.p.Addr.String() + "|" + string(id[:])
 			want[k]++
-			if d.reading {
+			// a consumer that pauses and later drains Peers to the end still "keeps reading": only a
+			// consumer that abandons the channel for good releases the announce from delivering
+			if d.reading || !strings.HasPrefix(scn.Consumer, "abandon") {
 				must[k]++
 			}
 		}
